@@ -222,24 +222,25 @@ def run(ctx):
         if idx is not None and "C02: " not in head:
             gores[idx] = "CRASH " + full[:300]
     kept, hangs = 0, []
+    for f in glob.glob(os.path.join(ctx.work, "c02.stderr.*")):
+        txt = open(f, errors="replace").read()
+        for m in re.finditer(r"(?m)^C02-HANG .*$", txt):
+            k = txt.rfind("CASE ", 0, m.start())
+            payload = txt[k + 5:txt.find("\n", k)] if k >= 0 else ""
+            idx = next((i for i in cases if cases[i] == payload), None)
+            if idx is not None:
+                hangs.append((idx, " ".join(m.group(0).split())))
     for info in infos.values():
         for c in info["crashes"]:
-            o = " ".join(c.get("output", "").split())
-            ctx.log(f"process death at case {c['idx']} (rc {c.get('rc')}): {o[:400]}")
-            forgiven = not gores.get(c["idx"], "").startswith("CRASH")
-            if "panic:" in o or "fatal error:" in o:
-                if forgiven:
-                    gores[c["idx"]] = "CRASH " + o[:300]
-                    kept += 1
-            elif "C02-HANG" in o:
-                hangs.append((c["idx"], o, forgiven))
+            ctx.log(f"process death at case {c['idx']} (rc {c.get('rc')})")
     # a wait that did not return: believed when it also hangs alone, or when it is not the only one of the run
     # (one unreproduced stall of a whole process under load is recorded, not reported)
-    for idx, o, forgiven in hangs:
-        if forgiven and len(hangs) >= 2:
+    for idx, o in hangs:
+        forgiven = not gores.get(idx, "").startswith("CRASH")
+        if not forgiven or len(hangs) >= 2:
             gores[idx] = "CRASH " + o[:300]
-            kept += 1
-        elif forgiven:
+            kept += forgiven
+        else:
             ctx.notes.append("one wait was declared stuck under load and returned when the case was run alone: " + o[:300])
     if kept:
         ctx.notes.append(f"{kept} process deaths were not reproduced when the case was run alone; they are still reported")
